@@ -7,6 +7,7 @@ NOTE_COMMON=("trusted: SMT solvers (z3 4.8.12, z3-new 5.1.0, cvc5 1.0.3), the go
              "(trusted_base); integers mathematical, float64 as exact reals; goroutine interleavings not modelled (go statements are ghost events, select is a nondeterministic choice among enabled cases)")
 claims={
  "C01":("Per-function proof for all (from,to,ops,n,duration): token count and token-time function of const/line/once profiles equal the rate integral (exact reals, 1 ns truncation), doAt schedule hands out start+f(i) and start+duration when exhausted.","DESIGN.md §5 C01"),
+ "C02":("Per-function proof, every path, all trees of parts: the composite's leftAfter table is exact where non-negative (built by NewComposite, kept by startNext), Left() returns the exact total when all remaining parts are known and -1 otherwise, every nested part is started exactly at the finish time returned by the exhausted part before it and exactly once, a finished composite stays finished; doAt/unlimited/once/finish-callback schedules hand out one index per call. Callers' interference is modelled at the write lock (protected fields havocked, only the data-structure invariant assumed); exactly-once across callers rests on the assumed linearizability of the atomic counter; full linearizability of the composite is not claimed.","DESIGN.md §5 C02"),
  "C03":("Per-instance accounting proved for every path and any number of iterations of instance.Run: one release per acquired ammo, a token is drawn only while ammo is held, at most one shot or discard per token, request/response counters equal shots; the global min(tokens, ammo) law over interleavings of instances is out of reach (stated).","DESIGN.md §5 C03"),
  "C04":("Waiter proved on a ghost clock for all token times and clock histories: no return before the token time, lateness measured with a clock sample taken in the call, 2 s window exact; the instance iteration discards only when enabled and late, shoots only when not late.","DESIGN.md §5 C04"),
  "C05":("Every exit path of the pool orchestration functions (all select orders as nondeterministic choice): wait group released exactly once, a nil result only after a clean await, every awaited result examined and every real failure handed on with its cause, delivered unless the pool context is done; liveness/promptness out of reach (stated).","DESIGN.md §5 C05"),
